@@ -101,6 +101,11 @@ def run_session(pcfg, save_config, save_filename, load=False, limit=None, quit_a
             it = real_queue.next(self)
             if it is not None:
                 popped.append(it)
+                # the user asks to quit while the (k+1)-th pre-terminal is being fetched: the loop notices it right after
+                # the pop (that pre-terminal is saved as the position, not guessed).  The request is made here, at the pop,
+                # because the loop no longer polls the keyboard thread (fix 283e0b7).
+                if ctl.quit_at_pt is not None and len(popped) >= ctl.quit_at_pt + 1:
+                    ctl.request_quit()
             return it
     cs.PcfgQueue = RecQueue
     sess = cs.CrackingSession(pcfg, save_config, save_filename)
